@@ -18,7 +18,9 @@ namespace Nsq.Props.C19
 open Nsq.Model.ToFile Nsq.Proofs.ToFile
 
 /-- `l` is a segment of the part of `f` that survives a power loss (the fsynced prefix of the
-decodable bytes; for gzip output: of the payload of closed members) -/
+decodable bytes; for gzip output: of the payload of closed members). This is an *infix* claim: it does not say
+that `l` starts a line, nor that two messages use different bytes (audit round 7, C5) — the line-level statement
+(one record per FINished occurrence, at a line start, pairwise disjoint) is `Nsq.Props.C19Lines.LinesSafe`. -/
 def SurvivesIn (f : File) (l : Bytes) : Prop := ∃ a b, f.data.take f.durable = a ++ l ++ b
 
 /-- some file that has a name in the work or output directory durably holds `l` -/
@@ -33,7 +35,8 @@ theorem safe_of_durS {fs : FS} {l : Bytes} (h : DurS fs l) : Safe fs l := by
 
 /-- **FIN implies durable.** In every reachable state every message that has been FINished has
 `body ++ "\n"` inside the fsynced prefix of a named file (gzip: inside a closed member inside the
-fsynced prefix). -/
+fsynced prefix). Infix statement; the stronger line-level statement and its status on the current tree
+(false in plain append mode behind a torn tail: `fin_owns_line_full_false`) are in `Nsq.Props.C19Lines`. -/
 theorem fin_implies_durable (c : Cfg) (io : Nat → Fault) (fs0 : FS) (evs : List (Ev × Bool)) :
     ∀ m ∈ (run c io (init fs0) evs).finished, Safe (run c io (init fs0) evs).fs (line m) :=
   fun m hm => safe_of_durS ((inv_run io evs _ (inv_init c fs0)).fin m hm)
@@ -74,7 +77,11 @@ overwritten, truncated or re-pointed: every pre-existing file in the output dir 
 separate work dir, every pre-existing file) still has its name, and its old bytes are a prefix of
 its current bytes (`O_APPEND`); with `O_EXCL` (gzip or rotate-interval) *every* pre-existing file —
 work dir included — is byte-identical. Holds along every run, for every fault schedule, also when
-other processes create new files in between (`Ev.ext`). -/
+other processes create new files in between (`Ev.ext`). The statement is anchored at `fs0` only: files that
+appear later (dropped by other processes, created and closed by the tool itself) are covered by the step-wise
+version `Nsq.Props.C19Mono.no_overwrite_stepwise`; a pre-existing file in a *separate work dir* in append mode
+is not covered by the first part (the tool may append to it and move it to the output dir): for those see
+`Nsq.Props.C19Mono.files_grow_or_move` (same name or moved work → output, old bytes a prefix). -/
 theorem no_overwrite (c : Cfg) (hwf : c.WF) (io : Nat → Fault) (fs0 : FS) (hdom : DomOk fs0)
     (evs : List (Ev × Bool)) (p : Path) (f0 : File) (hp : fs0.get p = some f0) :
     (p.out = true ∨ c.workDir = false →
@@ -98,7 +105,7 @@ theorem never_diverges (c : Cfg) (hwf : c.WF) (io : Nat → Fault) (fs0 : FS) (h
     (run c io (init fs0) evs).status ≠ .diverged :=
   (noOv_run hwf io evs _ (noOv_init c fs0 hdom)).nodiv
 
-def cfgPlain : Cfg := ⟨false, 0, 0, false, false, 2, true, false⟩
+def cfgPlain : Cfg := ⟨false, 0, 0, false, false, 2, true, false, false, false⟩
 
 /-! ### the tool as shipped (router behind go-nsq's `handlerLoop` with its `max_attempts` give-up) -/
 
@@ -150,7 +157,7 @@ theorem fin_after_fsync_msg_checker_sound (tr pre post : List Nsq.Model.ToFileTr
 
 /-! ### non-vacuity -/
 
-def cfgGzWork : Cfg := ⟨true, 10, 0, true, false, 2, true, false⟩
+def cfgGzWork : Cfg := ⟨true, 10, 0, true, false, 2, true, false, false, false⟩
 def noFault : Nat → Fault := fun _ => .ok
 def m1 : Msg := ⟨1, [104, 105]⟩
 def m2 : Msg := ⟨2, [120]⟩
